@@ -175,7 +175,7 @@ PROPS = {
     "C13": {
         "scenarios": ["C13"],
         "level": "fault_enumeration",
-        "quick_runs": {"C13": 1600},
+        "quick_runs": {"C13": 2400},
         "batch": 50,
         "thorough_runs": {"C13": 400000},
         "thorough_wall": 1200,
